@@ -26,6 +26,9 @@ def build(seq, tok):
     return r
 
 
+ALIAS = []
+
+
 def apply(src, der, act, tok):
     from regions import Regions
     a = act['a']
@@ -42,6 +45,12 @@ def apply(src, der, act, tok):
                 other = Regions([])
                 other.regions.extend(items)
                 src.extend(other)
+                # the Regions object handed over stays the caller's: a later edit of the receiver may not show in it
+                if items:
+                    last = src.pop()
+                    if [id(x) for x in other.regions] != [id(x) for x in items]:
+                        ALIAS.append(f'after extend({act["items"]}) on {len(src) + 1 - len(items)} element(s), pop() on the receiver changed the Regions object that was passed in')
+                    src.append(last)
             else:
                 src.extend(items)
         elif a == 'insert':
@@ -100,7 +109,11 @@ def run(ctx, pid):
                 if proj(der, tok) != pd:
                     ctx.violation(f'{pid}|list|state|slice|', f'slicing {ps} [{lo}:{hi}] gives {proj(der, tok)}', {'pre': st['pre']})
                     continue
+        del ALIAS[:]
         src2, der2, out = apply(src, der, st['act'], tok)
+        if ALIAS:
+            ctx.violation(f'{pid}|list|alias|extend', ALIAS[0], {'pre': st['pre'], 'act': st['act']})
+            continue
         got = (proj(src2, tok), proj(der2, tok))
         want = (st['src'], st['der'])
         a = st['act']
